@@ -551,10 +551,10 @@ func b64memPhase(run *evid.Run) {
 	readSize := gortsplib.VerifC04Base64ReadSize()
 	bound := 4 + readSize
 	feeds := map[string][]byte{
-		"no-padding":    bytes.Repeat([]byte("QUJD"), 1<<18),
-		"all-padded":    bytes.Repeat([]byte("QQ=="), 1<<16),
-		"mixed":         bytes.Repeat([]byte("QUJDQUI=QUJDQUJDQUJDQQ=="), 1<<14),
-		"never-aligned": append([]byte("QUJ"), bytes.Repeat([]byte("DQUJ"), 1<<17)...),
+		"no-padding":    bytes.Repeat([]byte("QUJD"), 1<<16),
+		"all-padded":    bytes.Repeat([]byte("QQ=="), 1<<15),
+		"mixed":         bytes.Repeat([]byte("QUJDQUI=QUJDQUJDQUJDQQ=="), 1<<13),
+		"never-aligned": append([]byte("QUJ"), bytes.Repeat([]byte("DQUJ"), 1<<16)...),
 	}
 	type job struct {
 		name  string
